@@ -36,6 +36,7 @@ type Contract struct {
 	Pkg      string // package short path the contract was written in (core, sys, ...)
 	Requires []Clause
 	Ensures  []Clause
+	EachRet  []Clause // like Ensures, one obligation per return statement
 	GhostEns []Clause // assumed at call sites, not checked against the body (ghost instrumentation)
 	Entry    []Clause // assumed at entry when verifying the body (ghost initialisation)
 	Modifies []string // raw item texts
@@ -76,7 +77,13 @@ type Guard struct {
 	lockKey string // core.IndexedState.RWMutex
 }
 
+type ErrorGhost struct {
+	Ghost   string
+	Pattern string
+}
+
 type Specs struct {
+	errorGhosts []ErrorGhost
 	contracts   map[string]*Contract
 	defines     map[string]*Define
 	pures       map[string]*PureFunc
@@ -230,6 +237,12 @@ func (sp *Specs) parseFile(repo, fn string) error {
 				}
 			}
 			cur, lastClause = nil, nil
+		case "error-ghost":
+			// error-ghost <ghost> <regexp over callee names>: every call of a matching function that returns a
+			// non-nil error (last result) sets the boolean ghost
+			g, pat := splitWord(rest)
+			sp.errorGhosts = append(sp.errorGhosts, ErrorGhost{Ghost: g, Pattern: strings.TrimSpace(pat)})
+			cur, lastClause = nil, nil
 		case "noinline":
 			for _, n := range strings.Split(rest, ",") {
 				if n = strings.TrimSpace(n); n != "" {
@@ -237,7 +250,7 @@ func (sp *Specs) parseFile(repo, fn string) error {
 				}
 			}
 			cur, lastClause = nil, nil
-		case "requires", "ensures", "ghost-ensures", "assume-entry":
+		case "requires", "ensures", "ensures-each-return", "ghost-ensures", "assume-entry":
 			if cur == nil {
 				return errf("%s outside a contract", word)
 			}
@@ -250,6 +263,9 @@ func (sp *Specs) parseFile(repo, fn string) error {
 			case "ensures":
 				cur.Ensures = append(cur.Ensures, cl)
 				lastClause = &cur.Ensures[len(cur.Ensures)-1]
+			case "ensures-each-return":
+				cur.EachRet = append(cur.EachRet, cl)
+				lastClause = &cur.EachRet[len(cur.EachRet)-1]
 			case "ghost-ensures":
 				cur.GhostEns = append(cur.GhostEns, cl)
 				lastClause = &cur.GhostEns[len(cur.GhostEns)-1]
@@ -577,7 +593,7 @@ func (sp *Specs) resolveExprs() error {
 			}
 			return nil
 		}
-		for _, cls := range [][]Clause{c.Requires, c.Ensures, c.GhostEns, c.Entry} {
+		for _, cls := range [][]Clause{c.Requires, c.Ensures, c.EachRet, c.GhostEns, c.Entry} {
 			if err := fix(cls); err != nil {
 				return err
 			}
